@@ -80,7 +80,11 @@ func buildSim(race bool) (string, *rewriteStats, error) {
 	if err != nil {
 		return "", nil, err
 	}
-	defer os.RemoveAll(scratch)
+	if os.Getenv("VERIF_KEEP_SCRATCH") == "" {
+		defer os.RemoveAll(scratch)
+	} else {
+		fmt.Fprintln(os.Stderr, "scratch kept:", scratch)
+	}
 	modfile := filepath.Join(scratch, "go.mod")
 	for _, f := range []string{"go.mod", "go.sum"} {
 		b, err := os.ReadFile(filepath.Join(repoDir, f))
